@@ -124,6 +124,11 @@ var fmtCases = []fmtCase{
 		"a":{"type":"array","nullable":true,"items":{"type":"string","format":"date-time","x-ogen-time-format":"2006-01-02 15:04"}},
 		"b":{"type":"array","nullable":true,"items":{"type":"string","format":"date-time"}}}}`,
 		[]string{`{"a":["2024-05-06 07:08"]}`, `{"b":["2024-05-06T07:08:00Z"]}`, `{"a":["2024-05-06 07:08"],"b":["2024-05-06T07:08:00Z"]}`, `{"a":null,"b":null}`, `{}`}},
+	// K22 again: a boxed array of arrays — whether the inner arrays are nullable is not in the wrapper's name
+	{"NestedNullArr", `{"type":"object","properties":{
+		"t":{"type":"array","nullable":true,"items":{"type":"array","items":{"type":"boolean","nullable":true}}},
+		"u":{"type":"array","nullable":true,"items":{"type":"array","nullable":true,"items":{"type":"boolean","nullable":true}}}}}`,
+		[]string{`{"t":[[true,null],[]]}`, `{"u":[null,[false]]}`, `{"t":null,"u":null}`, `{}`}},
 	// K24: the variant of anyOf[integer, number] is chosen by the spelling of the number
 	{"SumIntNum", `{"type":"object","required":["v"],"properties":{"v":{"anyOf":[{"type":"integer"},{"type":"number"}]}}}`,
 		[]string{`{"v":3}`, `{"v":3.5}`, `{"v":3.0}`, `{"v":1e2}`}},
@@ -180,7 +185,7 @@ func c04Formats(r *lp.Run, drv *gc.Driver, pkg *gc.Pkg) {
 			r.PropCheck()
 			fail := func(what, obs, exp string) {
 				switch c.name {
-				case "TimeArrLayouts":
+				case "TimeArrLayouts", "NestedNullArr":
 					r.Known(lp.PropFail{Property: "C04", Class: "K22", What: what, Input: in, Observed: obs, Expected: exp})
 					return
 				case "SumIntNum":
